@@ -540,8 +540,12 @@ func (e *FloatExp) MarshalJSON() ([]byte, error) {
 // such values must be written as a valid JSON integer, e.g. 1000000 rather
 // than 1e+06.
 func (e *FloatExp) appendJSON(buf []byte) []byte {
-	if i := int64(e.Value); float64(i) == e.Value {
-		return strconv.AppendInt(buf, i, 10)
+	// The conversion of an out of range float to an integer is
+	// implementation-defined, so check the range first.
+	if e.Value >= -9223372036854775808.0 && e.Value < 9223372036854775808.0 {
+		if i := int64(e.Value); float64(i) == e.Value {
+			return strconv.AppendInt(buf, i, 10)
+		}
 	}
 	return strconv.AppendFloat(buf, e.Value, 'g', -1, 64)
 }
